@@ -126,7 +126,7 @@ pub fn run(tier: &str) -> i32 {
     let mut evals = 0u64;
     let mut nontrivial = 0u64;
     // ---- producer ----------------------------------------------------------------------------
-    let (cfgs, _) = canonical_cfgs(&[8, 9, 11, 12, 14, 15, 1, 255], true);
+    let (cfgs, _) = canonical_cfgs(&[8, 9, 11, 12, 14, 15, 1, 255, 0], true);
     let zcfgs: Vec<Cfg> = cfgs.into_iter().filter(|c| c.zlib).collect();
     let mut inputs = corpus::small_inputs(if th { 9 } else { 7 }, 4, 5);
     inputs.extend(corpus::medium_inputs());
